@@ -218,7 +218,7 @@ func Minimize(c *Case, test func(*Case) bool, maxTests int) *Case {
 			if c.Server.Params == nil && c.Server.Version == "" && !c.Server.HasParams {
 				return false
 			}
-			c.Server.Params, c.Server.Version, c.Server.HasParams = nil, "", false
+			c.Server.Params, c.Server.Params2, c.Server.Version, c.Server.HasParams = nil, nil, "", false
 			return true
 		}) {
 			progress = true
